@@ -121,6 +121,7 @@ void h_SEQUENCE_decode_oer_chunked(void) {
 			__CPROVER_assert(T_eq((struct T *)st1, (struct T *)st2), "C05: same value");
 		}
 	}
+	SEQUENCE_free(&T_td, st1, ASFM_FREE_EVERYTHING); SEQUENCE_free(&T_td, st2, ASFM_FREE_EVERYTHING);
 }
 
 VF_NATIVE_MAIN
